@@ -67,25 +67,8 @@ func c05Program(p *vm.Program, env, env2 interface{}, step bool) (st *bcStats, o
 		}()
 		return machine.Run(p, env)
 	}()
-	if rerr != nil {
-		msg := errMessage(rerr)
-		for _, sig := range emptyStackSignatures {
-			if strings.HasPrefix(msg, sig) {
-				return st, out, rerr, "a run popped an empty evaluation stack: " + msg
-			}
-		}
-		if strings.HasPrefix(msg, "PANIC") {
-			return st, out, rerr, msg
-		}
-		return st, out, rerr, ""
-	}
-	if n := len(machine.Stack()); n != 0 {
-		return st, out, rerr, fmt.Sprintf("after a successful run %d value(s) are left on the stack besides the result: %s", n, core.Show(machine.Stack()))
-	}
-	if machine.Scope() != nil {
-		return st, out, rerr, "after a successful run a loop scope is still open"
-	}
-	// the same on a caller-owned VM that has already run other programs, some of which failed inside loops
+	// the same on a caller-owned VM that has already run other programs, some of which failed inside loops (a
+	// failing program is run on it too, so that the next successful one follows a failure)
 	if env2 != nil {
 		_, err2 := func() (o interface{}, e error) {
 			defer func() {
@@ -103,6 +86,24 @@ func c05Program(p *vm.Program, env, env2 interface{}, step bool) (st *bcStats, o
 				return st, out, rerr, "after a successful run on a long-lived VM (which earlier ran programs that failed inside loops) a loop scope is still open"
 			}
 		}
+	}
+	if rerr != nil {
+		msg := errMessage(rerr)
+		for _, sig := range emptyStackSignatures {
+			if strings.HasPrefix(msg, sig) {
+				return st, out, rerr, "a run popped an empty evaluation stack: " + msg
+			}
+		}
+		if strings.HasPrefix(msg, "PANIC") {
+			return st, out, rerr, msg
+		}
+		return st, out, rerr, ""
+	}
+	if n := len(machine.Stack()); n != 0 {
+		return st, out, rerr, fmt.Sprintf("after a successful run %d value(s) are left on the stack besides the result: %s", n, core.Show(machine.Stack()))
+	}
+	if machine.Scope() != nil {
+		return st, out, rerr, "after a successful run a loop scope is still open"
 	}
 	return st, out, rerr, ""
 }
